@@ -20,23 +20,53 @@ CODES = [100, 200, 201, 250, 300, 301, 302, 303, 304, 305, 400, 401, 402, 403, 4
 VALUES = ["1", "42", "npt=0.000-", "RTP/AVP/TCP;unicast;interleaved=0-1", "application/sdp", "12345678;timeout=60",
           "ipchub/1.0", "url=rtsp://h/a/trackID=0;seq=1;rtptime=0", "a b  c", "x:y", "", "gzip, deflate",
           'Digest realm="r", nonce="n"', "Tue, 15 Nov 1994 08:12:31 GMT", "\xe9t\xe9"]
-HOSTS = ["cam1", "server.example.com", "10.0.0.2", "[::1]", "[fe80::1ff:fe23:4567:890a]", "[2001:db8::1]", "H-9.local"]
+NAMES = ["cam1", "server.example.com", "10.0.0.2", "H-9.local", "a_b~c", "x"]
+V6 = ["::1", "fe80::1ff:fe23:4567:890a", "2001:db8::7", "::ffff:10.0.0.1", "::", "1.2.3.4", "FE80::A"]
+ZONES = ["eth0", "1", "en-0.1", "wlan_0~x"]
+PORTS = ["", "", "554", "8554", "1", "65535", "0", "00554"]
+PATHS = ["", "/", "/live/a", "/a/trackID=1", "/Cam_01.sdp", "/x~y-z/", "/a:b", "/a@b/c", "/streamid=0", "/a/b.c"]
+QUERIES = ["", "a=1", "token=abc&x=2", "t"]
 
 
-def gen_url(rng):
-    u = "rtsp://"
-    if rng.random() < 0.2:
-        u += rng.choice(["admin:pw123@", "u@"])
-    u += rng.choice(HOSTS)
+def gen_surl(rng, kind=None):
+    """a structured Request-URI: (0) "*" | (1 path query?) | (2 scheme user? host port? path query?) with
+    host = (0 reg-name-or-IPv4) | (1 v6addr [zone]); every host class with a port, an EMPTY port and no port"""
+    if kind is None:
+        kind = rng.choice([2] * 12 + [1])
+    q = [rng.choice(QUERIES)] if rng.random() < 0.25 else []
+    if kind == 1:
+        return [1, rng.choice([p for p in PATHS if p.startswith("/")]), q]
+    user = []
+    r = rng.random()
+    if r < 0.1:
+        user = [rng.choice(["admin", "u", "a.b-c_d~e"])]
+    elif r < 0.25:
+        user = [rng.choice(["admin", "u"]), rng.choice(["pw123", "", "p-w.d"])]
     if rng.random() < 0.5:
-        u += ":" + str(rng.choice([554, 8554, 1, 65535]))
-    for _ in range(rng.choice([0, 1, 1, 2, 3])):
-        u += "/" + rng.choice(["live", "a", "trackID=1", "streamid=0", "Cam_01.sdp", "x~y-z", "b.c"])
-    if rng.random() < 0.15:
-        u += "/"
-    if rng.random() < 0.2:
-        u += "?" + rng.choice(["a=1", "token=abc&x=2", "t"])
-    return u
+        host = [0, rng.choice(NAMES)]
+    else:
+        host = [1, rng.choice(V6)]
+        if rng.random() < 0.3:
+            host.append(rng.choice(ZONES))
+    port = [rng.choice(PORTS)] if rng.random() < 0.6 else []
+    return [2, rng.choice(["rtsp", "rtsp", "rtsp", "rtsps", "rtspu", "http"]), user, host, port, rng.choice(PATHS), q]
+
+
+def print_surl(u):
+    """the generator's own printer (for lengths and for seeding the mutation stream)"""
+    if u[0] == 0:
+        return "*"
+    opt = lambda o, pre: (pre + o[0]) if o else ""
+    if u[0] == 1:
+        return u[1] + opt(u[2], "?")
+    s = u[1] + "://"
+    if len(u[2]) == 1:
+        s += u[2][0] + "@"
+    elif len(u[2]) == 2:
+        s += u[2][0] + ":" + u[2][1] + "@"
+    h = u[3]
+    s += h[1] if h[0] == 0 else "[" + h[1] + ("%25" + h[2] if len(h) > 2 else "") + "]"
+    return s + opt(u[4], ":") + u[5] + opt(u[6], "?")
 
 
 def odd_case(rng, k):
@@ -103,11 +133,11 @@ def gen_request(rng, dirty, big):
     m = rng.choice(METHODS) if rng.random() < 0.85 else rng.choice(["X-CUSTOM", "play", "R", "RTS", "Options"])
     if dirty and rng.random() < 0.1:
         m = rng.choice(["RTSPX", "RTSP", "$A", "A B", ""])
-    u = "*" if (m == "OPTIONS" and rng.random() < 0.3) else gen_url(rng)
+    u = [0] if (m == "OPTIONS" and rng.random() < 0.3) else gen_surl(rng)
     if dirty and rng.random() < 0.05:
-        u = "*"
+        u = [0]
     if big and rng.random() < 0.05:
-        u = "rtsp://h/" + "a" * rng.choice([MAX_LINE - 20 - len(m), MAX_LINE - 19 - len(m), MAX_LINE - 18 - len(m)])
+        u = [2, "rtsp", [], [0, "h"], [], "/" + "a" * rng.choice([MAX_LINE - 20 - len(m), MAX_LINE - 19 - len(m), MAX_LINE - 18 - len(m)]), []]
     return [0, m, u, gen_header(rng, dirty), gen_body(rng, big)]
 
 
@@ -232,7 +262,7 @@ def py_encode(cfg, it):
             out += k.encode("latin-1") + b": " + ", ".join(d[k]).encode("latin-1") + b"\r\n"
         return out + b"\r\n" + body
     if it[0] == 0:
-        return it[1].encode() + b" " + it[2].encode() + b" RTSP/1.0\r\n" + hdr(it[3], it[4])
+        return it[1].encode() + b" " + print_surl(it[2]).encode() + b" RTSP/1.0\r\n" + hdr(it[3], it[4])
     if it[0] == 1:
         return b"RTSP/1.0 %d %s\r\n" % (it[1], (it[2] or "OK").encode()) + hdr(it[3], it[4])
     w = cfg[it[1]]
@@ -428,12 +458,31 @@ def run(ck):
     keys = [odd_case(rng, k).encode() for k in FIELDS + ["Content-Length"] for _ in range(3)] + \
            [b"x-foo", b"Cseq", b"CSEQ", b"cseq", b"RTP-info", b"www-authenticate", b"Content-Lengt", b"Content-Lengthh", b"a_b"]
     ck.stream("canonical_key", keys, "C14_canonkey", "C14_canonkey", None, sig=lambda c, e, o: "canonical-key", sample=1)
+    # 6. the Request-URI as a structured value: every host class x {no port, empty port, port} x userinfo x
+    #    path x query (exhaustive over small component sets) plus random ones; printed by the harness, parsed by
+    #    net/url, emitted by Request.Write the way the pull client does and read back by ReadRequest
+    urls = [[0]] + [[1, p_, q_] for p_ in ("/", "/live/a") for q_ in ([], ["x=1"], [""])]
+    hosts = [[0, n] for n in NAMES] + [[1, a] for a in V6] + [[1, a, ZONES[i % len(ZONES)]] for i, a in enumerate(V6)]
+    for h in hosts:
+        for port in ([], [""], ["554"]):
+            for user in ([], ["u"], ["u", "pw"]):
+                for path in ("", "/live/a"):
+                    for q_ in ([], ["x=1"]):
+                        urls.append([2, "rtsp", user, h, port, path, q_])
+    urls += [gen_surl(rng) for _ in range(3000 if T else 300)]
+    ck.stream("url_law", urls, "C14_urllaw", "C14_urllaw", "C14_urllaw_ok",
+              nontrivial=lambda u: u[0] == 2, sig=lambda c, e, o: "request-url", sample=2)
+    # 7. the pull client: the URL it keeps (default port, userinfo removed) and the URL of the request it emits
+    pulls = [u for u in urls if u[0] == 2 and u[1] == "rtsp" and not (u[3][0] == 1 and ":" not in u[3][1])]
+    ck.stream("pull_client_url", pulls, "C14_pullurl", "C14_pullurl", "C14_pullurl_ok",
+              nontrivial=lambda u: True, sig=lambda c, e, o: "pull-client-url", sample=2)
     hdrs = [rtp_header(rng, rng.choice([0, 1])) for _ in range(4000 if T else 600)]
     ck.stream("rtp_header", hdrs, "C14_rtphdr", "C14_rtphdr", None, nontrivial=lambda d: len(d) >= 12,
               sig=lambda c, e, o: "rtp-header-model", sample=1)
     return ck.finish(
         rule="streams of 1..10 generated requests/responses/interleaved frames (odd-case and multi-valued header "
-             "names, IPv6/userinfo URLs, empty..64 KiB bodies, 0..65535-byte frames, several channel tables) written "
+             "names, structured Request-URIs (reg-name/IPv4/IPv6 literal with zone x no/empty/numeric port x userinfo x "
+             "path x query, '*', path-only), empty..64 KiB bodies, 0..65535-byte frames, several channel tables) written "
              "by Request/Response/Packet.Write, concatenated (+ optional garbage tail) and read back by the "
              "`receive` dispatcher over a bufio.Reader (16 B..64 KiB) fed in case-chosen chunk sizes 1..4096; the "
              "written bytes, every parsed structure, the byte offset after every event and the way the loop ends are "
@@ -443,9 +492,11 @@ def run(ck):
              "max_line-1..max_line+2 bytes, lines that never end and absurd Content-Length with a lazily produced "
              "24..48 MiB tail (bytes pulled from the connection must stay within the materialised input + 2 bufio "
              "buffers + one chunk). non-trivial = at least two items of two kinds / at least 8 bytes",
-        trusted=["net/url (ParseRequestURI, URL.String) is an oracle: the generator emits only Request-URIs it prints back "
-                 "unchanged; on raw streams the URL is not compared and a net/url error is accepted exactly where the model "
-                 "is at the URL check",
+        trusted=["net/url's parser is an oracle (Section variable url_parse); its law on the URL grammar (parse of the printed "
+                 "structured URL = the structure's fields; String/Hostname/Port as modelled) is tested by the streams "
+                 "url_law (exhaustive over host class x port x userinfo x path x query) and written_streams, not proved; "
+                 "ReadRequest's own host fix is modelled and proved (C14_host_fix_exact); on raw streams the URL is not "
+                 "compared and a net/url error is accepted exactly where the model is at the URL check",
                  "chunking independence is bufio.Reader's and is tested (random chunk sizes and buffer sizes), not proved",
                  "pion/rtp v1.6.2 Header.Unmarshal is modelled as far as ok/error/panic goes (stream rtp_header)",
                  "strings.TrimSpace / ToUpper on ASCII; header bytes >= 0x80 are generated only where no Unicode space or "
